@@ -230,3 +230,10 @@ Lemma qskip_zdrop n (q : list byte) : qskip n q = zdrop n q.
 Proof. reflexivity. Qed.
 Lemma qlen_zlen (q : list byte) : qlen q = zlen q.
 Proof. reflexivity. Qed.
+
+Lemma zdrop_clip {A} n (l : list A) : zdrop n l = zdrop (Z.max 0 (Z.min n (zlen l))) l.
+Proof.
+  destruct (Z_le_gt_dec n 0); [rewrite !zdrop_neg by zlia; reflexivity|].
+  destruct (Z_le_gt_dec (zlen l) n); [rewrite !zdrop_all by zlia; reflexivity|].
+  f_equal. zlia.
+Qed.
